@@ -12,9 +12,19 @@ import (
 )
 
 // portError is the failure a port reports; its code travels to the model as TPort k.
-type portError struct{ code int }
+type portError struct {
+	code     int
+	wrapsEOF bool // a driver error whose chain ends in io.EOF: still the port's failure, not an orderly end
+}
 
 func (e *portError) Error() string { return fmt.Sprintf("port failure %d", e.code) }
+
+func (e *portError) Unwrap() error {
+	if e.wrapsEOF {
+		return io.EOF
+	}
+	return nil
+}
 
 // chunkReader delivers data according to a schedule of requested chunk sizes (0 = an empty read, allowed
 // at any time, also after the last byte); when the schedule is exhausted it fills the buffer offered.
@@ -78,6 +88,10 @@ func (r *chunkReader) Read(p []byte) (int, error) {
 }
 
 func termOf(err error, final error) string {
+	var pe0 *portError
+	if errors.As(err, &pe0) {
+		return fmt.Sprintf("(TPort %d)", pe0.code)
+	}
 	switch {
 	case err == nil || errors.Is(err, io.EOF):
 		return "TEnd"
@@ -255,14 +269,14 @@ func (c *ctx) schedules(n int, rich bool) [][]int {
 	return out
 }
 
-var finals = []error{io.EOF, &portError{7}, io.ErrUnexpectedEOF}
+var finals = []error{io.EOF, &portError{code: 7}, io.ErrUnexpectedEOF}
 
 func (c *ctx) final() error {
 	switch c.rng.Intn(3) {
 	case 0:
 		return io.EOF
 	case 1:
-		return &portError{code: 1 + c.rng.Intn(9)}
+		return &portError{code: 1 + c.rng.Intn(9), wrapsEOF: c.rng.Intn(3) == 0}
 	}
 	return &portError{code: 42}
 }
@@ -337,7 +351,7 @@ func init() {
 				c.emitScan(s, []int{cut, len(s)}, io.EOF, false)
 			}
 			for _, sch := range c.schedules(len(s), true) {
-				c.emitScan(s, sch, &portError{3}, c.rng.Intn(2) == 0)
+				c.emitScan(s, sch, &portError{code: 3}, c.rng.Intn(2) == 0)
 			}
 		}
 		// ---- bounded-exhaustive: every stream over {fa,ff,00,01} up to length L x every partition ----
@@ -390,10 +404,10 @@ func init() {
 			}
 			return s
 		}
-		c.emitScan(big(65535, 65536), []int{4096, 0, 60000}, &portError{5}, false)
-		c.emitScan(big(65535, 65529), nil, &portError{5}, false)
+		c.emitScan(big(65535, 65536), []int{4096, 0, 60000}, &portError{code: 5}, false)
+		c.emitScan(big(65535, 65529), nil, &portError{code: 5}, false)
 		if c.thorough() {
-			c.emitScan(big(65535, 65530), nil, &portError{5}, true)
+			c.emitScan(big(65535, 65530), nil, &portError{code: 5}, true)
 			c.emitScan(big(65529, 65530), []int{1, 2, 3, 70000}, io.EOF, false)
 			c.emitScan(append(big(3000, 3001), xsens.NewMessage(0x30, nil)...), []int{1, 1, 1, 1, 1, 1, 1, 5000}, io.EOF, false)
 		}
